@@ -289,3 +289,101 @@ Arguments eff_tools {O} _ _.
 Arguments tools_invoke_with {O} _ _ _ _ _ _.
 Arguments tools_stream_open_with {O} _ _ _ _ _ _.
 Arguments tools_executed_with {O} _ _ _ _ _.
+
+(* ---- convTools (108-157), NewToolNode (90-100) ------------------------------------------ *)
+(* A tool as NewToolNode / WithToolList is given it: whether its Info call succeeds, the name
+   Info reports, which of the two run interfaces the value implements (None = neither: it
+   cannot be run), and its implementation — what InvokableRun / StreamableRun compute from the
+   options handed over and the argument string (the one the kind does not provide is never
+   called).  convTools walks the list in order and stops at the first tool it cannot take;
+   otherwise it fills indexes[name] = idx in list order, so the LAST tool of a name is the one
+   a call finds. *)
+Definition E_TOOLINFO : N := 7.
+Definition E_NOTRUNNABLE : N := 8.
+
+Section ConvTools.
+  Variable O : Type.
+
+  Record toolimpl : Type := mkTI { ti_inv : O -> string -> tres; ti_str : O -> string -> sres }.
+  Record tooldecl : Type := mkTD {
+    td_info_ok : bool; td_name : string; td_kind : option tkind; td_impl : toolimpl }.
+
+  Fixpoint conv_tools (l : list tooldecl) : res (list (string * (tkind * toolimpl))) :=
+    match l with
+    | [] => Ok []
+    | d :: r =>
+        if negb (td_info_ok d) then Err E_TOOLINFO
+        else match td_kind d with
+             | None => Err E_NOTRUNNABLE
+             | Some k => do rest <- conv_tools r; Ok ((td_name d, (k, td_impl d)) :: rest)
+             end
+    end.
+
+  Fixpoint index_lookup {A} (tl : list (string * A)) (name : string) : option A :=
+    match tl with
+    | [] => None
+    | (n, a) :: r =>
+        match index_lookup r name with
+        | Some a' => Some a'
+        | None => if String.eqb n name then Some a else None
+        end
+    end.
+
+  (* the converted list as the tool set the calls are resolved in (a name that does not
+     resolve never reaches the implementation: genToolCallTasks has no task for it) *)
+  Definition toolset_of_conv (tl : list (string * (tkind * toolimpl))) : toolset O :=
+    mkTS (fun name => option_map fst (index_lookup tl name))
+         (fun o name args => match index_lookup tl name with
+                             | Some (_, ti) => ti_inv ti o args
+                             | None => TErr E_UNKNOWN
+                             end)
+         (fun o name args => match index_lookup tl name with
+                             | Some (_, ti) => ti_str ti o args
+                             | None => SErr E_UNKNOWN
+                             end).
+
+  Variable handler : option (string -> string -> tres).
+
+  (* the call options after convTools: Invoke / Stream convert the call's list before they
+     look at the message *)
+  Definition conv_call_list (cl : option (list tooldecl)) : res (option (toolset O)) :=
+    match cl with
+    | None => Ok None
+    | Some l => res_map (fun tl => Some (toolset_of_conv tl)) (conv_tools l)
+    end.
+
+  (* NewToolNode(conf) followed by one Invoke / Stream with call options *)
+  Definition node_invoke (cfg : list tooldecl) (cl : option (list tooldecl)) (opts : O)
+             (pi : list nat) (role_ok : bool) (calls : list call) : res (list tmsg) :=
+    do c <- conv_tools cfg;
+    do l <- conv_call_list cl;
+    tools_invoke_with (toolset_of_conv c) handler (mkCO l opts) pi role_ok calls.
+
+  Definition node_stream_open (cfg : list tooldecl) (cl : option (list tooldecl)) (opts : O)
+             (pi : list nat) (role_ok : bool) (calls : list call) : res (list tstream) :=
+    do c <- conv_tools cfg;
+    do l <- conv_call_list cl;
+    tools_stream_open_with (toolset_of_conv c) handler (mkCO l opts) pi role_ok calls.
+
+  Definition node_executed (cfg : list tooldecl) (cl : option (list tooldecl)) (opts : O)
+             (role_ok : bool) (calls : list call) : list call :=
+    match conv_tools cfg, conv_call_list cl with
+    | Ok c, Ok l => tools_executed_with (toolset_of_conv c) handler (mkCO l opts) role_ok calls
+    | _, _ => []
+    end.
+End ConvTools.
+Arguments mkTI {O} _ _.
+Arguments ti_inv {O} _ _ _.
+Arguments ti_str {O} _ _ _.
+Arguments mkTD {O} _ _ _ _.
+Arguments td_info_ok {O} _.
+Arguments td_name {O} _.
+Arguments td_kind {O} _.
+Arguments td_impl {O} _.
+Arguments conv_tools {O} _.
+Arguments index_lookup {A} _ _.
+Arguments toolset_of_conv {O} _.
+Arguments conv_call_list {O} _.
+Arguments node_invoke {O} _ _ _ _ _ _ _.
+Arguments node_stream_open {O} _ _ _ _ _ _ _.
+Arguments node_executed {O} _ _ _ _ _ _.
